@@ -68,6 +68,10 @@ INJ = {
     'NOREALLOC': [
         {'file': F, 'func': 'vector_changeBuffer', 'at': 'func-begin',
          'ghost': '__CPROVER_assert(REALLOC != 0, "value: no reallocation while the new size() fits capacity()"); __CPROVER_assume(REALLOC != 0);'}],
+    # repaired insert(pos, value): its temporary copy lives in raw local storage; it must be destroyed before it goes out of scope
+    'TMPCHK': [
+        {'file': F, 'func': 'vector_insert', 'at': 'before', 'anchor': 'self->m_size++;',
+         'ghost': '__CPROVER_assert((tmpbuf[0] & 3) == ELEM_RAW, "lifetime: insert(pos, x): the temporary copy of x is destroyed before its storage goes out of scope");'}],
 }
 
 COMMON_ASSUME = [
@@ -108,6 +112,6 @@ for name, (meta, body) in UNITS.items():
     if len(sys.argv) > 1 and name not in sys.argv[1:]:
         continue
     txt = '/*@unit ' + pprint.pformat(meta, width=150, sort_dicts=False) + ' @*/\n'
-    txt += '/* generated by units/C02/tools/gen_units.py from tools/unit_table.py */\n#include "vc.h"\n#include "cxx/igris_vector.c"\n' + body.lstrip('\n')
+    txt += '/* generated by units/C02/tools/gen_units.py from tools/unit_table.py */\n' + ('#if defined(REALLOC) && REALLOC == 0\n#define C02_NO_J 1   /* no reallocation: the source slots are read in their pre-state, one tracked index is enough */\n#endif\n' if 'REALLOC' in str(meta.get('params', '')) else '') + '#include "vc.h"\n#include "cxx/igris_vector.c"\n' + body.lstrip('\n')
     open(os.path.join(HERE, name + '.c'), 'w').write(txt)
     print('wrote', name)
